@@ -307,3 +307,12 @@ func Contains(s string, subs ...string) bool {
 	}
 	return false
 }
+
+// ChildTimeout bounds one child process (a batch of scenarios): quick batches finish in well under a
+// minute; the bound only matters when the code under test hangs or loops.
+func (c *Ctx) ChildTimeout() time.Duration {
+	if c.Thorough() {
+		return 15 * time.Minute
+	}
+	return 5 * time.Minute
+}
